@@ -704,7 +704,7 @@ def run(index: RepoIndex, rep) -> None:
     reset_passthrough(index, rep, 'C01.R8')
     observation_passthrough(index, rep, 'C01.R8')
     from .c04 import outer_delegation
-    outer_delegation(index, rep, 'C01.R8')
+    outer_delegation(index, rep, 'C01.R8', strict=False)
     n = run_bounds(index, rep, 'C01.R1')
     rep.extra_coverage['bounds_sinks'] = n
     action_check(index, rep, 'C01.R2')
